@@ -517,6 +517,19 @@ class Hist:
         if self.dirty:
             self.rollback()
         vs = sorted(self.versions)
+        if r.random() < 0.12:
+            # every version goes: the store is empty again and is written to afterwards
+            self.emit("delfrom %d" % vs[0])
+            self.versions.clear()
+            self.wlog.clear()
+            self.reopen()
+            self.base = 0
+            self.working = {}
+            self.iv0 = self.cfg["iv"]
+            self.emit("avail")
+            self.emit("latest")
+            self.read_ops(2)
+            return
         v = r.choice(vs[1:])
         if r.random() < 0.5 and (v - 1) in self.versions:
             # the other order: position the tree on the version that will be the latest, delete everything
